@@ -2,6 +2,9 @@ module verifharness
 
 go 1.24.1
 
-require github.com/semihalev/twig v0.0.0
+require (
+	github.com/anishathalye/porcupine v1.3.0
+	github.com/semihalev/twig v0.0.0
+)
 
 replace github.com/semihalev/twig => /repo
